@@ -12,4 +12,4 @@ CONSTANTS NP = 1
           Cfgs <- MCCfgs
           Msgs <- MCMsgs
 INVARIANTS TypeOK BlockOnlyIfPresentWantedPermitted HaveOnlyIfPresent DontHaveOnlyIfAbsentAndAsked
-           LedgerBounded NoGhostWhenIdeal QueueBounded PresentWantHasTask EvictionOrder
+           LedgerBounded NoGhostWhenIdeal QueueBounded PresentWantHasTask UpgradeKeepsBlockTask EvictionOrder
